@@ -19,7 +19,7 @@ META = {
         "the Report, the client's cache and arithmetic, and the next request's security parameters."),
     "bounds": ["histories of 1..4 operations (get / set / walk step)", "clock advance before each operation from {0, 1, 149, 150, 151, 3600, 259200, 10^6} s (traced: any 0..10^6)",
                "agent boots in {1, 7, 2^31-2}, time at discovery in {0, 100, 2^30} (traced: any)", "reboot before an operation: yes / no (thorough; reported as known finding F19)",
-               "discovery reply: matching / foreign message id, with / without bindings", "levels noAuthNoPriv, authNoPriv (MD5), authPriv (SHA-1)", "default and explicit (different) context engine id", "two clients talking to two engines (different boots / time) on one clock, interleaved with advances"],
+               "discovery reply: matching / foreign message id, with / without bindings", "levels noAuthNoPriv, authNoPriv (MD5), authPriv (SHA-1)", "default and explicit (different) context engine id", "two clients talking to two engines (different boots / time) on one clock, interleaved with advances", "a discovery exchange that itself takes 200 s"],
     "outside": ["clock going backwards", "snmpEngineTime wrapping past 2^31-1", "client and agent clocks drifting apart (one virtual clock drives both)"],
     "stubs": ["sender = trampoline", "all clocks = one virtual clock", "get_request_id pinned", "privacy plug-in = harness stream cipher"],
     "assumptions": ["a conformant non-authoritative engine may estimate snmpEngineTime from its own clock (RFC 3414 2.3)"],
@@ -83,7 +83,7 @@ class VClock:
 CTX_ENGINE = b"\x80\x00\x1f\x88\x04some-other-context-engine"
 
 
-def make_harness(kind, nops, reboots=False, traced=False, explicit_ctx=False):
+def make_harness(kind, nops, reboots=False, traced=False, explicit_ctx=False, disco_delay=0):
     level = {"noauth": 0, "md5": 1, "sha1priv": 3}[kind]
 
     def h(b_sel, t_sel, a0, a1, a2, a3, r1, r2, r3, disco_id, disco_vb, op_sel):
@@ -108,6 +108,19 @@ def make_harness(kind, nops, reboots=False, traced=False, explicit_ctx=False):
                 world = C.World(kind, Database(UNIVERSE), boots=boots0, clock=lambda: int(vc.now - state["epoch"]),
                                 engine_id=CTX_ENGINE if explicit_ctx else b"")
                 eng = world.engine
+                if disco_delay:
+                    # the discovery probe reaches the agent only after `disco_delay` seconds (lost probes, retries)
+                    plain_answer = world.answer
+
+                    def delayed_answer(req):
+                        try:
+                            if ber.dec_v3_msg(req.data).usm.engine_id == b"":
+                                vc.now += disco_delay
+                        except ber.BerError:
+                            pass
+                        return plain_answer(req)
+
+                    world.answer = delayed_answer
                 if bad_id:
                     orig_report = eng.report
                     eng.report = lambda msg_id, *a, **kw: orig_report(msg_id + 1, *a, **kw)
@@ -296,6 +309,11 @@ def jobs(tier):
     for kind in ("md5",) if quick else ("noauth", "md5", "sha1priv"):
         out.append(Job(f"two-clients-{kind}", make_two_clients(kind), [Arg(f"adv{i}", 0, len(ADVANCES) - 1) for i in range(3)] + [Arg("order", 0, 1)],
                        timeout=600, mode="E/concolic-window", functions=tf, sample_every=13))
+    for kind in ("md5",) if quick else ("md5", "sha1priv"):
+        ad = args(2, False, discos=False)
+        ad[0], ad[1] = Arg("boots", 1, 1), Arg("t0", 1, 1)
+        out.append(Job(f"history-{kind}-2ops-discovery-takes-200s", make_harness(kind, 2, disco_delay=200), ad, timeout=600,
+                       mode="E/concolic-window", functions=tf, sample_every=7))
     ar = args(2, True, discos=False)
     if quick:
         ar[0], ar[1] = Arg("boots", 0, 0), Arg("t0", 0, 1)
